@@ -36,6 +36,12 @@ theorem Conforms.setVar {s : St} {T : TState} {n : String} {v : Value} {d : Deta
     obtain ⟨w, h1, h2⟩ := hc.vars m dm hm
     exact ⟨w, by rw [St.getVar_setVar_other _ _ _ _ hnm]; exact h1, h2⟩
 
+theorem insertOk_of_checks {K : Kind} {p : Path} (h : AllNan (insertChecks K p)) : insertOk K p = true := by
+  unfold insertChecks at h
+  simp only [allNan_append] at h
+  rw [allNan_chk (by decide), allNan_chk (by decide)] at h
+  simp [insertOk, h.1, h.2]
+
 theorem targetInsert_eq {s s' : St} (hf : s.faults = []) {m : Bool} {p : Path} {v : Value}
     (hi : s.targetInsert m p v = some s') :
     ∃ v' prev, (if m then s.metadata else s.event).insert p v = .ok (v', prev) ∧
@@ -88,7 +94,7 @@ theorem tgt_insert_conforms {s s' : St} {T : TState} (t : Tgt) (v : Value) (new 
         exact absurd hk hp
       | some d =>
         rw [hd] at hk
-        rw [allNan_chk (by decide)] at hk
+        have hk := insertOk_of_checks hk
         obtain ⟨v0, h1, h2, h3, _⟩ := hc.vars n d hd
         rw [h1] at hi
         simp only at hi
@@ -107,7 +113,7 @@ theorem tgt_insert_conforms {s s' : St} {T : TState} (t : Tgt) (v : Value) (new 
   | external m p =>
     simp only [Tgt.insertTypeDef]
     simp only [tgtChecks] at hk
-    rw [allNan_chk (by decide)] at hk
+    have hk := insertOk_of_checks hk
     simp only [Tgt.insert] at hi
     obtain ⟨v', prev, hins, hvars, hfa, hrest⟩ := targetInsert_eq hc.faults hi
     cases m with
